@@ -134,6 +134,7 @@ struct Sink {
 		size_t b = at[op], e = op + 1 < at.size() ? at[op + 1] : buf.size(); ++op;
 		return e - b == len && (!len || !memcmp(&buf[b], cur, len));
 	}
+	void skip() { ++op; }
 	std::string blob() const { return std::string((const char *) cur, len); }
 	static std::string decode(const uint8_t *p, size_t n)
 	{
@@ -165,8 +166,8 @@ static uint8_t *exact(size_t n, int which = 0)
 
 struct Case {
 	Run &r; const uint8_t *s; size_t n; const std::vector<size_t> *lens; const char *form; bool isref;
-	std::vector<std::string> reported; uint64_t evals;
-	Case(Run &run) : r(run), s(0), n(0), lens(0), form(""), isref(false), evals(0) {}
+	std::vector<std::string> reported; uint64_t evals; bool lastbad;
+	Case(Run &run) : r(run), s(0), n(0), lens(0), form(""), isref(false), evals(0), lastbad(false) {}
 	std::string where() const { return isref ? show(s, n) + " (contiguous)" : show_cut(s, *lens) + " (" + form + ")"; }
 	void fail(const char *fn, const std::string &icls, const std::string &acls, const char *group, const std::string &what)
 	{
@@ -177,7 +178,7 @@ struct Case {
 	}
 };
 // after a library call and k.begin()..: close the op, report ASan / mismatch (arguments are evaluated on failure only)
-#define CLOSE(fn, icls, acls, desc) do { ++c.evals; bool as_ = asan_error(); bool eq_ = k.end(); \
+#define CLOSE(fn, icls, acls, desc) do { ++c.evals; bool as_ = asan_error(); bool eq_ = k.end(); c.lastbad = as_ || !eq_; \
 	if (as_) c.fail(fn, icls, acls, "asan", std::string(desc) + " on " + c.where() + ": access outside a fragment / caller buffer (AddressSanitizer)"); \
 	else if (!eq_) c.fail(fn, icls, acls, "wrong-result", std::string(desc) + " on " + c.where() + ": " + k.diff()); } while (0)
 
@@ -304,12 +305,14 @@ static void ops_argv(Case &c, Sink &k, const mpt::message &m0)
 {
 	Run &r = c.r; size_t n = c.n;
 	for (int sep : SEPS) {
+		bool bad = false;
 		r.hint("mpt_message_argv");
 		{	// one step: returned length + where the cursor is afterwards
 			mpt::message m = m0;
 			ssize_t len = mpt::mpt_message_argv(&m, sep);
 			k.begin(); k.num(len); put_rest(k, n, m);
 			CLOSE("mpt_message_argv", argv_icls(c, sep), sepcls(sep), fmt("mpt_message_argv(sep=0x%02x)", sep));
+			bad |= c.lastbad;
 		}
 		{	// iterate to exhaustion the way mpt_array_message does: argv ; read(len) ; read(1)
 			mpt::message m = m0; size_t steps = 0, bound = 4 * n + 8;
@@ -328,9 +331,12 @@ static void ops_argv(Case &c, Sink &k, const mpt::message &m0)
 			k.num((int64_t) steps); put_rest(k, n, m);
 			if (!c.isref && steps > 1) ++P.argv_multi;
 			CLOSE("mpt_message_argv", argv_icls(c, sep), sepcls(sep) + ",iterated", fmt("loop{mpt_message_argv(sep=0x%02x); read(len); read(1)}", sep));
+			bad |= c.lastbad;
 		}
 		r.hint("mpt_array_message");
-		{
+		// a case that already violated is not expanded further: mpt_array_message runs the same loop without a step bound
+		if (bad && !c.isref) { k.skip(); r.count("array_message_skipped_after_argv_violation"); }
+		else {
 			mpt::array a;
 			int narg = mpt::mpt_array_message(&a, &m0, sep);
 			k.begin(); k.num(narg);
